@@ -95,7 +95,7 @@ def generate(rng, tier, index):
     nsave = sum(1 for x in ops if x["op"] == "save")
     for i in range(nops):
         k = o.weighted([("steps", 30), ("integrate", 10), ("save", 22 if nsave < 4 else 0), ("add", 5), ("remove", 5), ("sync", 5), ("set", 5), ("move", 4),
-                        ("clock_jump", 4), ("energy", 3), ("set_lrescale", 4 if (cfg.get("var") or cfg.get("megno")) else 0), ("auto", 4 if nsave < 4 else 0), ("switch", 3 if not cfg.get("box") else 0), ("reset_integrator", 2 if not cfg.get("box") else 0)])
+                        ("clock_jump", 4), ("energy", 3), ("grow_radius", 4 if (cfg.get("box") and cfg.get("collision", "none") != "none") else 0), ("set_lrescale", 4 if (cfg.get("var") or cfg.get("megno")) else 0), ("auto", 4 if nsave < 4 else 0), ("switch", 3 if not cfg.get("box") else 0), ("reset_integrator", 2 if not cfg.get("box") else 0)])
         if k == "steps":
             ops.append(dict(op="steps", n=o.randint(1, 25)))
         elif k == "integrate":
@@ -123,6 +123,9 @@ def generate(rng, tier, index):
             ops.append(dict(op="move", pick=o.randint(0, 50), dx=o.uniform(-1e-3, 1e-3), dvy=o.uniform(-1e-3, 1e-3), fm=o.choice([1.0, 1.5])))
         elif k == "set_lrescale":
             ops.append(dict(op="set_lrescale", pick=o.randint(0, 5), value=o.choice([-1.0, 12.5, 230.25])))
+        elif k == "grow_radius":
+            # a radius assigned after the particle was added (the cached two largest radii of the tree searches go stale until the next re-insertion)
+            ops.append(dict(op="grow_radius", pick=o.randint(0, 200), factor=o.choice([1.5, 3.0])))
         elif k == "clock_jump":
             ops.append(dict(op="clock_jump", us=o.choice([3600 * 10**6, -3600 * 10**6, 10**12, -10**9])))
         else:
